@@ -11,6 +11,7 @@ PLAN = {
     "c05_arith": ["asan"],
     "c16_lit": ["asan"],
     "seq_eval": ["asan"],
+    "c18_json": ["asan", "plain"],
 }
 
 
